@@ -10,6 +10,14 @@ Replies are captured at the transport byte for byte and
     the wire, the same reply whatever server and whatever neighbours (isolation);
   * replayed on Model/Processor.v by Judge/JProcessor.v (same definitions the theorems of Props/C14.v
     are about).
+
+Bounded outputs (second half of this file): the same processors over outputs that reject what does not fit —
+Process over frugal.NewTMemoryOutputBuffer(limit) for many small limits around the sizes involved (every
+transport call recorded with its fate), the real FNatsServer with its 1 MiB buffer (results, response headers,
+correlation ids and error texts of more than 1 MiB, a reply that fits to the byte), the HTTP handler with
+x-frugal-payload-limit.  Direct oracle: at most one reply, the request's op id, the normal reply iff it
+fits, otherwise the right exception kind under all response headers or under the op id only, nothing only
+when even that cannot fit.  Judge/JProcessorBounded.v replays Model/ProcessorBounded.v on every observation.
 """
 import collections
 import struct
@@ -510,9 +518,12 @@ class Stats:
         self.samples = []
         self.judge_cases = []
         self.judge_meta = []
+        self.bjudge_cases = []
+        self.bjudge_meta = []
+        self.bsamples = []
 
 
-def run_service(ctx, sv, nframes, st, nbatches):
+def run_service(ctx, sv, nframes, st, nbatches, bounded=None):
     rng = ctx.rng
     # a pool of argument encodings per method, written by the generated code itself
     reqs, meta = [], []
@@ -536,6 +547,11 @@ def run_service(ctx, sv, nframes, st, nbatches):
     wire_of = {m["go"]: m["wire"] for m in sv.methods}
     default_toks = [[wire_of[g], bytes.fromhex(x["rb"]), 1 if x["wok"] else 0] for g, x in sorted(defaults.items())]
     mtoks = sv.method_toks()
+
+    if bounded:
+        run_bounded(ctx, sv, st, pool, default_toks, mtoks, bounded["nframes"], bounded["nrand"])
+        if bounded.get("nats"):
+            run_bounded_nats(ctx, sv, st, pool, default_toks, mtoks, bounded.get("thorough"))
 
     for bi in range(nbatches):
         frames, outcomes = gen_batch(ctx, sv, nframes, pool, 1000 * (bi + 1))
@@ -763,6 +779,502 @@ def oracle_mode(ctx, sv, mode, frames, outcomes, r, calls_by_key, base_replies, 
 
 
 # ------------------------------------------------------------------------------------------------
+# bounded outputs
+
+NATS_MAX = 1048576
+BPLAN = {0: "error before output", 1: "oneway success", 2: "unknown method", 3: "SendError", 4: "SendReply",
+         5: "SendReply, result not writable"}
+
+
+def big_tok(b):
+    """judge token of a byte string: as it is, or (long ones) a list of parts with runs of one byte folded"""
+    if len(b) < 2048:
+        return b
+    parts, i, n, raw = [], 0, len(b), bytearray()
+    while i < n:
+        j = i + 1
+        while j < n and b[j] == b[i]:
+            j += 1
+        if j - i >= 512:
+            if raw:
+                parts.append(bytes(raw))
+                raw = bytearray()
+            parts.append([j - i, bytes(b[i:i + 1])])
+        else:
+            raw += b[i:j]
+        i = j
+    if raw:
+        parts.append(bytes(raw))
+    return parts
+
+
+def spec_extra(spec):
+    """the response headers an outcome adds, as (key, value) byte pairs in the order the handler adds them"""
+    out = [(bytes.fromhex(a), bytes.fromhex(b)) for a, b in spec.get("extra", [])]
+    for r in spec.get("extra_rep", []):
+        out.append((bytes.fromhex(r["k"]), bytes.fromhex(r["pat"]) * r["n"]))
+    return out
+
+
+def spec_msg(spec):
+    m = bytes.fromhex(spec.get("msg", ""))
+    if spec.get("msg_rep"):
+        m += bytes.fromhex(spec["msg_rep"]["pat"]) * spec["msg_rep"]["n"]
+    return m
+
+
+def outcome_toks_b(sv, outcomes, calls_by_key):
+    wire_of = {m["go"]: m["wire"] for m in sv.methods}
+    out = []
+    for key, spec in sorted(outcomes.items()):
+        c = calls_by_key.get(key)
+        k = spec["k"]
+        if c is not None and c.get("default"):
+            continue
+        extra = [[big_tok(a), big_tok(b)] for a, b in spec_extra(spec)]
+        if k in ("ret", "declared"):
+            if c is None:
+                continue
+            out.append([key.encode(), wire_of[spec["method"]], 0, big_tok(bytes.fromhex(c.get("rb", ""))),
+                        1 if c.get("wok") else 0, 0, b"", extra])
+        elif k == "appexc":
+            out.append([key.encode(), wire_of[spec["method"]], 1, b"", 0, spec["type"], big_tok(spec_msg(spec)), extra])
+        else:
+            out.append([key.encode(), wire_of[spec["method"]], 2, b"", 0, 0, big_tok(spec_msg(spec)), extra])
+    return out
+
+
+def attempts_of(trace):
+    """the recorded transport calls cut into attempts: a new one starts after a rejected write or a Reset"""
+    out, cur = [], []
+    for e in trace:
+        if e["k"] == 2:
+            if cur:
+                out.append(cur)
+            cur = []
+            continue
+        if e["k"] == 1:
+            continue
+        cur.append(e)
+        if not e["ok"]:
+            out.append(cur)
+            cur = []
+    if cur:
+        out.append(cur)
+    return out
+
+
+def etext_of_trace(trace):
+    """the text of the error SendError / trapError was given, read off the writes of the EXCEPTION attempts:
+    the text itself if one of them got as far as writing it, else a filler of the announced length, else None"""
+    filler = None
+    for a in attempts_of(trace):
+        w = [bytes.fromhex(e.get("b", "")) for e in a]
+        if len(w) > 5 and w[1] == b"\x80\x01\x00\x03" and w[5] == b"\x0b":
+            if len(w) > 8:
+                return w[8]
+            if len(w) > 7 and len(w[7]) == 4 and filler is None:
+                filler = b"?" * struct.unpack(">i", w[7])[0]
+    return filler
+
+
+def chunk_sizes(trace):
+    """the sizes of the writes result.Write issues: the first attempt of an unbounded run after the header
+    block and the four writes of WriteMessageBegin, if it is a REPLY"""
+    at = attempts_of(trace)
+    if not at:
+        return []
+    w = [bytes.fromhex(e.get("b", "")) for e in at[0]]
+    if len(w) >= 5 and w[1] == b"\x80\x01\x00\x02":
+        return [len(x) for x in w[5:]]
+    return []
+
+
+def hdr_block_size(h):
+    return 5 + sum(8 + len(k) + len(v) for k, v in h.items())
+
+
+def exc_struct_size(text):
+    return (7 + len(text) if text else 0) + 8
+
+
+def bounded_oracle(ctx, sv, st, fr, lim, o, base, call, outcomes, sibling_texts, mode="bounded"):
+    """The property over a bounded output on ONE observation, no model.
+    base: the reply the same request gets over an unbounded output (bytes, b"" = none)."""
+    def bad(what):
+        rep = replay_of(sv, [fr], outcomes, mode, 0, o)
+        rep["limit"] = lim
+        ctx.violation("C14 (%s, limit %d): %s" % (mode, lim, what), rep,
+                      signature={"mode": mode, "kind": fr["kind"]})
+        return False
+
+    w = bytes.fromhex(o.get("written", ""))
+    tr = o.get("trace", [])
+    nfl = sum(1 for e in tr if e["k"] == 1)
+    if nfl > 1:
+        return bad("%d Flush calls for one request" % nfl)
+    if (nfl == 1) != bool(w) or bool(w) != bool(o.get("hasdata")):
+        return bad("Flush calls %d, HasWriteData %s, %d bytes in the buffer" % (nfl, o.get("hasdata"), len(w)))
+    if w and tr and tr[-1]["k"] != 1:
+        return bad("something was written after the Flush")
+    if "[" in o.get("errtext", ""):
+        return bad("buffer malformed: " + o["errtext"])
+    rq = parse_request(fr["frame"])
+    if rq is None:
+        if w or not o["err"]:
+            return bad("a frame without decodable headers / envelope: %d bytes left, error class %s" % (len(w), o["err"]))
+        return True
+    fits_all = lim <= 0 or len(base) + 4 <= lim
+    unwritable = call is not None and not call.get("wok", True) and \
+        (call.get("default") or (call.get("spec") or {}).get("k") in ("ret", "declared"))
+    if fits_all and not unwritable:
+        if canon(w) != canon(base) if (w and base) else w != base:
+            return bad("the reply fits (%d + 4 bytes) but the output differs from the unbounded one" % len(base))
+        if o["err"]:
+            return bad("Process returned an error although its answer fits")
+        return True
+    known = [m for m in sv.methods if m["wire"] == rq["name"]]
+    pb = parse_reply(base) if base else None
+    if not base:
+        # a oneway success writes nothing whatever the limit
+        if w or o["err"]:
+            return bad("a request that gets no answer over an unbounded output left %d bytes" % len(w))
+        return True
+    if isinstance(pb, str):
+        return True       # the unbounded oracle reports that
+    btext, bkind = None, None
+    if pb["type"] == 3:
+        ex = parse_app_exception(pb["body"])
+        if ex is not None:
+            btext, bkind = ex
+    small_hdr = {b"_opid": rq["opid"]}
+    if not w:
+        if o["err"] and known:
+            return bad("Process returned an error for a registered method")
+        if not o["err"] and not known:
+            return bad("nothing left for an unknown method but Process returned nil")
+        # nothing may be left only if even the op-id-only exception does not fit; its size follows from the
+        # error text, which the recorded writes show as soon as an attempt got that far
+        fixed = 4 + hdr_block_size(small_hdr) + 12 + len(rq["name"])
+        text = btext if (btext is not None and not unwritable) else etext_of_trace(tr)
+        if text is not None:
+            need = fixed + exc_struct_size(text)
+            if need <= lim:
+                return bad("nothing was left although the exception under the op id alone takes %d bytes" % need)
+        elif fixed + 7 <= lim:
+            return bad("nothing was left and no attempt got as far as the exception's text although %d bytes fit" % (fixed + 7))
+        st.c["bounded/oracle_nothing_fits"] += 1
+        return True
+    if o["err"]:
+        return bad("Process returned an error and left %d bytes" % len(w))
+    r = parse_reply(w)
+    if isinstance(r, str):
+        return bad(r)
+    if r["headers"].get(b"_opid") != rq["opid"]:
+        return bad("reply carries op id %r, the request's is %r" % (r["headers"].get(b"_opid"), rq["opid"]))
+    if r["name"] != rq["name"] or r["seq"] != 0:
+        return bad("reply names method %r seq %d" % (r["name"][:40], r["seq"]))
+    if r["type"] != 3:
+        return bad("message type %d although the normal reply does not fit" % r["type"])
+    ex = parse_app_exception(r["body"])
+    if ex is None:
+        return bad("EXCEPTION body is not a well-formed TApplicationException")
+    if unwritable:
+        want_kinds = (6, 100)
+    elif pb["type"] == 2:
+        want_kinds = (100,)
+    else:
+        want_kinds = (bkind,)
+    if ex[1] not in want_kinds:
+        return bad("exception type %d, expected %s" % (ex[1], "/".join(map(str, want_kinds))))
+    if pb["type"] == 3 and not unwritable and ex[0] != btext:
+        return bad("exception message %r differs from the unbounded one" % ex[0][:60])
+    sibling_texts.append(ex[0])
+    if r["headers"] == pb["headers"]:
+        st.c["bounded/oracle_full_headers"] += 1
+    elif r["headers"] == small_hdr:
+        alt = len(w) - hdr_block_size(small_hdr) + hdr_block_size(pb["headers"])
+        if alt + 4 <= lim:
+            return bad("answered under the op id alone although the exception with all response headers takes %d bytes" % (alt + 4))
+        st.c["bounded/oracle_opid_only"] += 1
+    else:
+        return bad("reply headers %r: neither all response headers nor the op id alone" % sorted(r["headers"])[:6])
+    return True
+
+
+def bounded_case(mode, lim, mtoks, otoks, default_toks, frame, etext, sizes, oerr, out, trace):
+    return [mode, lim, mtoks, otoks, default_toks, big_tok(frame), big_tok(etext), sizes, oerr, big_tok(out),
+            [[e["k"], bytes.fromhex(e.get("b", "")), 1 if e["ok"] else 0] for e in trace]]
+
+
+def run_bounded(ctx, sv, st, pool, default_toks, mtoks, nframes, nrand):
+    """Process over NewTMemoryOutputBuffer(limit) for limits around every size involved, and the HTTP handler
+    with a payload limit."""
+    rng = ctx.rng
+    frames, outcomes = gen_batch(ctx, sv, nframes, pool, 700000 + 1000 * st.c["bounded/batches"])
+    st.c["bounded/batches"] += 1
+    # more and longer response headers than the unbounded batches have
+    for spec in outcomes.values():
+        if rng.random() < 0.7:
+            ex = spec.setdefault("extra", [])
+            for _ in range(rng.randrange(1, 4)):
+                ex.append([("x-b%d" % rng.randrange(6)).encode().hex(),
+                           bytes(rng.choice(b"abcdefgh") for _ in range(rng.choice([0, 1, 7, 30, 120, 300]))).hex()])
+        # results larger than an error reply (string returns only: the harness pads those), so that the reply
+        # overflows where the exception with all response headers still fits
+        if spec.get("k") == "ret" and rng.random() < 0.5:
+            spec["pad"] = rng.choice([150, 300, 700])
+    n = len(frames)
+    r0 = run_mode_b(sv, "bounded", frames, outcomes, [0] * n)
+    if r0.get("code") != 0:
+        ctx.violation("C14 (bounded): the unbounded run crashed or hung: %s" % (r0.get("panic") or r0.get("err")),
+                      replay_of(sv, frames, outcomes, "bounded", None, r0), signature=None)
+        return
+    calls_by_key = {}
+    for c in r0["calls"]:
+        calls_by_key.setdefault(c["key"], c)
+    for key, c in calls_by_key.items():
+        c["spec"] = outcomes.get(key)
+    otoks = outcome_toks_b(sv, outcomes, calls_by_key)
+    base = [bytes.fromhex(r0["obs"][i].get("written", "")) for i in range(n)]
+    sizes = [chunk_sizes(r0["obs"][i].get("trace", [])) for i in range(n)]
+
+    def call_of(i):
+        rq = parse_request(frames[i]["frame"])
+        if rq is None or rq["key"] is None:
+            return None
+        return calls_by_key.get(rq["key"].decode("latin1"))
+
+    def run_pass(plan):
+        """plan: list of (frame index, limit)"""
+        if not plan:
+            return []
+        r = run_mode_b(sv, "bounded", [frames[i] for i, _ in plan], outcomes, [l for _, l in plan])
+        if r.get("code") != 0:
+            ctx.violation("C14 (bounded): the run crashed or hung: %s" % (r.get("panic") or r.get("err")),
+                          replay_of(sv, [frames[i] for i, _ in plan], outcomes, "bounded", None, r), signature=None)
+            return []
+        return list(zip(plan, r["obs"]))
+
+    plan1 = [(i, 0) for i in range(n)]
+    for i in range(n):
+        N = len(base[i]) + 4
+        lims = {1, 3, 4, 5, N - 1, N, N + 1}
+        for _ in range(nrand):
+            lims.add(rng.randrange(5, N + 4))
+        plan1 += [(i, l) for l in sorted(lims) if l > 0]
+    obs1 = run_pass(plan1)
+    # second pass: one byte around every size that occurred
+    seen = {(i, l) for i, l in plan1}
+    plan2 = []
+    for (i, l), o in obs1:
+        E = len(bytes.fromhex(o.get("written", "")))
+        if E:
+            for l2 in (E + 3, E + 4, E + 5):
+                if (i, l2) not in seen:
+                    seen.add((i, l2))
+                    plan2.append((i, l2))
+    obs2 = run_pass(plan2)
+    texts = collections.defaultdict(list)
+    allobs = obs1 + obs2
+    # oracle: first the observations that left something (they teach the error texts), then the empty ones
+    allobs.sort(key=lambda x: (x[0][0], 0 if x[1].get("written") else 1))
+    for (i, l), o in allobs:
+        ok = bounded_oracle(ctx, sv, st, frames[i], l, o, base[i], call_of(i), outcomes, texts[i])
+        st.evals += 1
+        w = bytes.fromhex(o.get("written", ""))
+        nrej = sum(1 for e in o.get("trace", []) if e["k"] == 0 and not e["ok"])
+        st.distinct.add((sv.key, frames[i]["kind"], frames[i].get("outcome"), frames[i]["method"], "bounded", nrej, bool(w)))
+        st.bjudge_cases.append(bounded_case(0, l, mtoks, otoks, default_toks, frames[i]["frame"],
+                                            etext_of_trace(o.get("trace", [])) or b"?", sizes[i], 1 if o["err"] else 0, w,
+                                            o.get("trace", [])))
+        st.bjudge_meta.append((sv, "bounded", frames[i], outcomes, l, o))
+    st.c["bounded/observations"] += len(allobs)
+    if len(st.bsamples) < 3 and allobs:
+        (i, l), o = allobs[len(allobs) // 2]
+        st.bsamples.append({"service": sv.key, "kind": frames[i]["kind"], "limit": l, "unbounded_reply_bytes": len(base[i]),
+                            "left": o.get("written", "")[:120], "rejected_writes":
+                            sum(1 for e in o.get("trace", []) if e["k"] == 0 and not e["ok"])})
+
+    # ---- HTTP handler with a payload limit
+    hplan = []
+    for i in range(n):
+        if parse_request(frames[i]["frame"]) is None:
+            continue
+        P = len(base[i])
+        for l in {1, P - 1, P, P + 1, rng.randrange(1, P + 2)}:
+            if l > 0:
+                hplan.append((i, l))
+    rng.shuffle(hplan)
+    hplan = hplan[:3 * n]
+    if hplan:
+        r = run_mode_b(sv, "http", [frames[i] for i, _ in hplan], outcomes, [l for _, l in hplan])
+        if r.get("code") != 0:
+            ctx.violation("C14 (http, payload limit): the run crashed or hung: %s" % (r.get("panic") or r.get("err")),
+                          replay_of(sv, [frames[i] for i, _ in hplan], outcomes, "http", None, r), signature=None)
+        else:
+            for (i, l), o in zip(hplan, r["obs"]):
+                st.evals += 1
+                P = len(base[i])
+                want = 413 if l < P else 200
+                got = bytes.fromhex(o.get("raw", ""))[4:]
+                what = None
+                if o.get("status") != want:
+                    what = "status %s for a payload of %d bytes under x-frugal-payload-limit %d" % (o.get("status"), P, l)
+                elif want == 200 and (canon(got) != canon(base[i]) if (got and base[i]) else got != base[i]):
+                    what = "the body differs from the reply the same request gets from Process"
+                if what:
+                    rep = replay_of(sv, [frames[i]], outcomes, "http", 0, o)
+                    rep["limit"] = l
+                    ctx.violation("C14 (http, payload limit %d): %s" % (l, what), rep,
+                                  signature={"mode": "http-limit", "kind": frames[i]["kind"]})
+                st.c["bounded/http_%d" % (o.get("status") or 0)] += 1
+                st.distinct.add((sv.key, frames[i]["kind"], frames[i].get("outcome"), frames[i]["method"], "http-limit", o.get("status")))
+                et = etext_of([base[i]]) if base[i] else b""
+                st.bjudge_cases.append(bounded_case(2, l, mtoks, otoks, default_toks, frames[i]["frame"], et, [],
+                                                    {200: 0, 500: 1, 413: 2}.get(o.get("status"), 9), got, []))
+                st.bjudge_meta.append((sv, "http", frames[i], outcomes, l, o))
+
+
+def run_mode_b(sv, mode, frames, outcomes, limits, proto="binary"):
+    rq = {"op": "c14", "service": sv.key, "proto": proto, "mode": mode, "outcomes": outcomes,
+          "results": sv.results_map(), "frames": [f["frame"].hex() for f in frames], "limits": limits,
+          "workers": 1, "quiet_ms": 150}
+    return sv.lb.run([rq], timeout=900)[0]
+
+
+def run_bounded_nats(ctx, sv, st, pool, default_toks, mtoks, thorough):
+    """The real FNatsServer (1 MiB output buffer) with answers that do not fit: by the result, by the response
+    headers alone, by the correlation id alone, by the error text; and a reply that fits to the byte.
+    Only for the fixed program (methods ping / name)."""
+    rng = ctx.rng
+    by_wire = {m["wire"]: m for m in sv.methods}
+    if b"ping" not in by_wire or b"name" not in by_wire:
+        return
+    ping, name = by_wire[b"ping"], by_wire[b"name"]
+    BIG = NATS_MAX + rng.randrange(1, 200000)
+    frames, outcomes, expect = [], {}, []
+
+    def add(m, key, spec, exp, hdrs=None, wire=None, args=None, kind="ok"):
+        opid = str(880000 + len(frames)).encode()
+        hs = [(b"_opid", opid), (b"_cid", b"cid-%d" % len(frames))] if hdrs is None else [(b"_opid", opid)] + hdrs
+        if spec is not None:
+            spec = dict(spec, method=m["go"], result=m["result_key"])
+            spec.setdefault("extra", [])
+            outcomes[key] = spec
+            hs.append((KEY, key.encode()))
+        body = envelope(wire or m["wire"], 1, 0) + (args if args is not None else pool[m["go"]][0])
+        frames.append({"kind": kind, "method": (wire or m["wire"]).decode()[:40], "opid": opid,
+                       "frame": hc.ref_marshal(hs) + body, "outcome": (spec or {}).get("k")})
+        expect.append(dict(exp, opid=opid))
+
+    sval = {"0": L.to_wire(sv.prog, ["string"], "abc")}
+    ival = {"0": L.to_wire(sv.prog, ["i32"], 7)}
+    bigh = lambda k: [{"k": k.hex(), "pat": b"h".hex(), "n": BIG}]  # noqa: E731
+    add(name, "nb1", {"k": "ret", "value": sval, "extra_rep": bigh(b"x-big")}, {"n": 1, "kind": 100, "hdr": "opid"})
+    add(name, "nb2", {"k": "ret", "value": sval, "pad": BIG, "extra": [[b"x-s".hex(), b"small".hex()]]},
+        {"n": 1, "kind": 100, "hdr": "full", "extra": {b"x-s": b"small"}})
+    add(ping, "nb3", {"k": "appexc", "type": 42, "msg": b"no".hex(), "extra_rep": bigh(b"x-big")},
+        {"n": 1, "kind": 42, "hdr": "opid", "msg": b"no"})
+    add(ping, "nb4", {"k": "other", "msg": b"E".hex(), "msg_rep": {"k": "", "pat": b"e".hex(), "n": BIG}}, {"n": 0})
+    add(ping, None, None, {"n": 1, "kind": 1, "hdr": "opid"}, hdrs=[(b"_cid", b"c" * BIG)], wire=b"nosuch", kind="unknown")
+    add(ping, "nb6", {"k": "ret", "value": ival}, {"n": 1, "kind": 7, "hdr": "opid"}, hdrs=[(b"_cid", b"c" * BIG)],
+        args=b"\x0b\x00\x01\x7f\xff\xff\xff", kind="badargs")
+    add(ping, "nb7", {"k": "ret", "value": ival, "extra_rep": bigh(b"x-big")}, {"n": 1, "kind": 100, "hdr": "opid"})
+    if thorough:
+        add(name, "nb8", {"k": "other", "msg": b"oops".hex(), "extra_rep": bigh(b"x-big")},
+            {"n": 1, "kind": 6, "hdr": "opid", "msg": b"Internal error processing name: oops"})
+        add(ping, None, None, {"n": 0}, wire=b"u" * (NATS_MAX // 2), kind="unknown")
+    # a reply that fits to the byte, and one byte more: calibrated on an unbounded direct run
+    P0 = 1000
+    cal_frames, cal_outcomes = [], {}
+    hs = [(b"_opid", b"1"), (b"_cid", b"cid-fit"), (KEY, b"cal")]
+    cal_outcomes["cal"] = {"k": "ret", "value": sval, "pad": P0, "method": name["go"], "result": name["result_key"], "extra": []}
+    cal_frames.append({"kind": "ok", "method": "name", "frame": hc.ref_marshal(hs) + envelope(b"name", 1, 0) + pool[name["go"]][0]})
+    rc = run_mode_b(sv, "bounded", cal_frames, cal_outcomes, [0])
+    if rc.get("code") == 0 and rc["obs"][0].get("written"):
+        N0 = len(bytes.fromhex(rc["obs"][0]["written"])) + 4
+        # the op ids of the real frames are 6 digits, the calibration's 1; the keys 3 characters both
+        fitpad = P0 + (NATS_MAX - N0) - 5
+        add(name, "nf1", {"k": "ret", "value": sval, "pad": fitpad}, {"n": 1, "type": 2, "size": NATS_MAX},
+            hdrs=[(b"_cid", b"cid-fit")])
+        add(name, "nf2", {"k": "ret", "value": sval, "pad": fitpad + 1}, {"n": 1, "kind": 100, "hdr": "full"},
+            hdrs=[(b"_cid", b"cid-fit")])
+    r = run_mode_b(sv, "nats", frames, outcomes, [])
+    if r.get("code") != 0:
+        ctx.violation("C14 (nats, 1 MiB): the run crashed or hung: %s" % (r.get("panic") or r.get("err")),
+                      replay_of(sv, [dict(f, frame=f["frame"][:4096]) for f in frames], {}, "nats", None, str(r)[:600]),
+                      signature=None)
+        return
+    calls_by_key = {}
+    for c in r["calls"]:
+        calls_by_key.setdefault(c["key"], c)
+    otoks = outcome_toks_b(sv, outcomes, calls_by_key)
+    for i, (fr, exp) in enumerate(zip(frames, expect)):
+        o = r["obs"][i]
+        got = [bytes.fromhex(x) for x in o["replies"]]
+        st.evals += 1
+
+        def bad(what):
+            rep = {"service": sv.key, "mode": "nats", "idl": L.render(sv.prog), "failing_frame_index": i,
+                   "failing_kind": fr["kind"], "method": fr["method"],
+                   "failing_frame_bytes": len(fr["frame"]), "failing_frame_head": fr["frame"][:300].hex(),
+                   "outcome": {k: (v if k not in ("value",) else "...") for k, v in (outcomes.get(parse_request(fr["frame"])["key"].decode())
+                                                                                    if parse_request(fr["frame"]) and parse_request(fr["frame"])["key"] else {}).items()},
+                   "replies": [g[:300].hex() for g in got], "reply_sizes": [len(g) for g in got]}
+            ctx.violation("C14 (nats, 1 MiB buffer): %s" % what, rep, signature={"mode": "nats-bounded", "kind": fr["kind"]})
+
+        if o.get("errtext"):
+            bad("reply message malformed: " + o["errtext"])
+        if len(got) != exp["n"]:
+            bad("%d replies to a request that must get %s" % (len(got), "exactly one" if exp["n"] else "none (no answer fits 1 MiB)"))
+        for g in got:
+            pr = parse_reply(g)
+            if isinstance(pr, str):
+                bad(pr)
+                continue
+            if pr["headers"].get(b"_opid") != exp["opid"]:
+                bad("reply carries op id %r, the request's is %r" % (pr["headers"].get(b"_opid"), exp["opid"]))
+            if len(g) + 4 > NATS_MAX:
+                bad("a reply of %d bytes went out" % (len(g) + 4))
+            if exp.get("type") == 2:
+                if pr["type"] != 2:
+                    bad("message type %d for a reply that fits to the byte" % pr["type"])
+                elif len(g) + 4 != exp["size"]:
+                    bad("calibration: the fitting reply has %d bytes, expected %d" % (len(g) + 4, exp["size"]))
+                continue
+            if pr["type"] != 3:
+                bad("message type %d, expected an EXCEPTION" % pr["type"])
+                continue
+            ex = parse_app_exception(pr["body"])
+            if ex is None:
+                bad("EXCEPTION body is not a well-formed TApplicationException")
+                continue
+            if ex[1] != exp["kind"]:
+                bad("exception type %d, expected %d" % (ex[1], exp["kind"]))
+            if "msg" in exp and ex[0] != exp["msg"]:
+                bad("exception message %r, expected %r" % (ex[0][:80], exp["msg"]))
+            keys = set(pr["headers"])
+            if exp["hdr"] == "opid" and keys != {b"_opid"}:
+                bad("headers %r, expected the op id alone" % sorted(keys))
+            if exp["hdr"] == "full":
+                if b"_cid" not in keys:
+                    bad("headers %r, expected all response headers" % sorted(keys))
+                for k, v in exp.get("extra", {}).items():
+                    if pr["headers"].get(k) != v:
+                        bad("response header %r missing from the exception" % k)
+        st.c["bounded/nats_%s" % ("none" if not got else "reply" if exp.get("type") == 2 else "exc_" + exp.get("hdr", "?"))] += 1
+        st.distinct.add((sv.key, fr["kind"], fr.get("outcome"), fr["method"], "nats-1MiB", len(got), exp.get("kind"), exp.get("hdr")))
+        out = got[0] if got else b""
+        st.bjudge_cases.append(bounded_case(1, NATS_MAX, mtoks, otoks, default_toks, fr["frame"], etext_of(got), [],
+                                            0, out, []))
+        st.bjudge_meta.append((sv, "nats", dict(fr, frame=fr["frame"][:2048]), {}, NATS_MAX, {"replies": [g[:200].hex() for g in got]}))
+    if len(st.bsamples) < 5:
+        st.bsamples.append({"service": sv.key, "mode": "nats", "response_header_bytes": BIG,
+                            "reply_sizes": [[len(bytes.fromhex(x)) for x in o["replies"]] for o in r["obs"]]})
+
+
+# ------------------------------------------------------------------------------------------------
 
 def run(ctx, br):
     quick = ctx.tier == "quick"
@@ -797,7 +1309,9 @@ def run(ctx, br):
                 svcs = svcs[:2]
             for fn, s in svcs:
                 sv = Svc(prog, lb, fn, s)
-                run_service(ctx, sv, nf, st, nb)
+                run_service(ctx, sv, nf, st, nb,
+                            bounded={"nframes": (10 if what == "fixed" else 6) if quick else (24 if what == "fixed" else 12),
+                                     "nrand": 4 if quick else 10, "nats": what == "fixed", "thorough": not quick})
                 st.c["services"] += 1
             nprog += 1
         finally:
@@ -825,8 +1339,30 @@ def run(ctx, br):
             for b, name in BRANCHES.items():
                 if v & b:
                     branch_hits["%s/%s" % (mode, name)] += 1
+    # ---- correspondence over bounded outputs: Model/ProcessorBounded.v replays every observation
+    bverd = vlib.run_judge(ctx.rundir, "JProcessorBounded", "judge", st.bjudge_cases, shard=900000, name="jb") \
+        if st.bjudge_cases else []
+    bmism = 0
+    bhits = collections.Counter()
+    for meta, v in zip(st.bjudge_meta, bverd):
+        sv, mode, fr, outcomes, lim, o = meta
+        if v < 0:
+            bmism += 1
+            rep = replay_of(sv, [fr], outcomes, mode, 0, o)
+            rep["limit"] = lim
+            rep["no_failing_input_found"] = True
+            rep["broken"] = ("correspondence JProcessorBounded.judge: Model/ProcessorBounded.v (process_b / nats_frame_b / "
+                             "http_frame_b: SendReply, trapError, sendError, writeException over a bounded output) does not "
+                             "reproduce what the implementation did with this frame and limit")
+            ctx.violation("C14 correspondence (%s, bounded output, limit %d): model and implementation disagree" % (mode, lim),
+                          rep, signature={"mode": mode + "-bounded", "judge": True})
+        else:
+            validated += 1
+            bhits["%s/%s/%d rejected writes/%s" % (mode, BPLAN.get(v // 100, "?"), (v % 100) // 10,
+                                                   {0: "answer left", 1: "nothing left", 5: "413"}.get(v % 10, "?"))] += 1
     ctx.assumptions += [
-        "replies fit the output buffer (size limits are C12's); handlers do not panic and do not block",
+        "handlers do not panic and do not block; over a bounded output the binary protocol is modelled write by write "
+        "(compact / JSON are not)",
         "texts of Go errors (args.Read error, result.Write error) are inputs of the model, taken from the observed reply",
         "compact and JSON protocols are not modelled (the envelope and TApplicationException codecs are Apache Thrift's)",
         "a frame whose headers or envelope cannot be decoded ends the FSimpleServer connection it arrived on (kept behaviour)",
@@ -838,12 +1374,20 @@ def run(ctx, br):
                 "inheritance): known/unknown method x well-formed/mutated arguments x handler outcome (value, declared exception, "
                 "TApplicationException, other error, unwritable result, default) x header/envelope variants, run through Process "
                 "directly (transport with and without Reset), 2-8 goroutines on one shared output, FSimpleServer connections, "
-                "FNatsServer (1 and 3 workers), HTTP handler; non-trivial = distinct (service, frame kind, outcome, method, mode, replies)",
+                "FNatsServer (1 and 3 workers), HTTP handler; bounded outputs: Process over NewTMemoryOutputBuffer(limit) for limits "
+                "1, 3, 4, 5, one byte around the reply / the exception with all headers / the exception under the op id alone, "
+                "and random ones, FNatsServer with results / response headers / correlation ids / error texts above 1 MiB and a "
+                "reply of exactly 1 MiB, HTTP handler with x-frugal-payload-limit around the payload size; "
+                "non-trivial = distinct (service, frame kind, outcome, method, mode, replies | rejected writes, anything left)",
         "programs": nprog,
         "traces_validated_against_impl": validated,
         "judge_cases": len(st.judge_cases),
         "judge_mismatches": mism,
         "model_branch_hits": dict(sorted(branch_hits.items())),
+        "bounded_judge_cases": len(st.bjudge_cases),
+        "bounded_judge_mismatches": bmism,
+        "bounded_model_branch_hits": dict(sorted(bhits.items())),
+        "bounded_samples": st.bsamples,
         "input_histogram": dict(st.c),
         "samples": st.samples,
     }
